@@ -13,6 +13,7 @@ from linear_operator.operators import LinearOperator
 from torch import nn, Tensor
 from torch.distributions import Distribution
 
+from . import _verif
 from .constraints import Interval
 from .priors import Prior
 
@@ -354,6 +355,8 @@ class Module(nn.Module):
         # If we're going in training mode, we need to clear any pre-comptued caches from eval mode
         if (self.training and not mode) or mode:
             self._clear_cache()
+        if _verif.ON:
+            _verif.owner_event("m_train", self, mode=bool(mode))
         return super().train(mode=mode)
 
     def constraint_for_parameter_name(self, param_name: str) -> Interval | None:
@@ -391,6 +394,8 @@ class Module(nn.Module):
     ):
         # If we're loading from a state dict, we need to clear any precomputed caches
         self._clear_cache()
+        if _verif.ON:
+            _verif.owner_event("m_load_state_dict", self)
         super()._load_from_state_dict(
             state_dict, prefix, local_metadata, strict, missing_keys, unexpected_keys, error_msgs
         )
